@@ -168,6 +168,7 @@ class Driver:
             raise InfraError('driver executable missing (run setup: lake build Knee driver)')
         self.p = subprocess.Popen([exe], stdin=subprocess.PIPE, stdout=subprocess.PIPE, text=True, bufsize=1)
         self.queries = 0
+        self.dead = False
 
     def call(self, fn, args, oracle=None):
         line = 'CALL ' + fn + ''.join(' ' + a for a in args) + '\n'
@@ -183,7 +184,13 @@ class Driver:
                 toks = out[2:].split(' ')
                 if oracle is None:
                     raise InfraError('unexpected oracle query ' + out)
-                ans = oracle(toks[0], toks[1:])
+                try:
+                    ans = oracle(toks[0], toks[1:])
+                except BaseException:
+                    # the model is blocked waiting for an answer: this process cannot be reused
+                    self.dead = True
+                    self.p.kill()
+                    raise
                 self.p.stdin.write(ans + '\n')
                 self.p.stdin.flush()
             elif out.startswith('R '):
@@ -358,7 +365,7 @@ class Ctx:
         return time.time() - self.t0
 
     def get_driver(self):
-        if self.driver is None:
+        if self.driver is None or self.driver.dead:
             self.driver = Driver()
         return self.driver
 
@@ -484,6 +491,13 @@ def run_property(mod, prop_id, tier, seed, replay=None):
     elif other and known_hit:
         # disagreements explained by a listed finding on the same run are not re-reported
         pass
+    if ctx.failures:
+        hist = {}
+        for f in ctx.failures:
+            k = f'{f.kind}:{f.clause}@{f.site}'
+            hist[k] = hist.get(k, 0) + 1
+        for k, v in sorted(hist.items(), key=lambda kv: -kv[1])[:int(os.environ.get('VERIF_HIST', '25'))]:
+            print(f'  failing-cases {v:6d}  {k}')
     write_evidence(ctx, audit, violations=nviol, assumptions=getattr(mod, 'ASSUMPTIONS', []),
                    extra_cov=getattr(ctx, 'extra_cov', None))
     print(f'{prop_id} tier={tier} seed={seed} evaluations={ctx.evaluations} nontrivial={len(ctx.nontrivial)} '
